@@ -655,7 +655,9 @@ fn tcp_slice_str(base: &[u8], t: &TcpSlice) -> String {
 
 fn icmp4_slice_str(base: &[u8], i: &Icmpv4Slice) -> String {
     let h = i.header();
-    let mism = h.header_len() != i.header_len() || h.checksum != i.checksum();
+    // the typed header has to be a reading of the same type/code octets
+    let hb = h.to_bytes();
+    let mism = h.header_len() != i.header_len() || h.checksum != i.checksum() || hb[0] != i.type_u8() || hb[1] != i.code_u8() || h.icmp_type != i.icmp_type();
     format!(
         "icmp4(s={},type={},code={},ck={},b58={},hl={},pl={}){}",
         win(base, i.slice()),
@@ -671,7 +673,15 @@ fn icmp4_slice_str(base: &[u8], i: &Icmpv4Slice) -> String {
 
 fn icmp6_slice_str(base: &[u8], i: &Icmpv6Slice) -> String {
     let h = i.header();
-    let mism = h.header_len() > i.slice().len().max(8) + 32 || h.checksum != i.checksum() || i.header_len() != 8;
+    let hb = h.to_bytes();
+    let mism = h.header_len() > i.slice().len().max(8) + 32
+        || h.checksum != i.checksum()
+        || i.header_len() != 8
+        || h.icmp_type.type_u8() != i.type_u8()
+        || h.icmp_type.code_u8() != i.code_u8()
+        || hb[0] != i.type_u8()
+        || hb[1] != i.code_u8()
+        || h.icmp_type != i.icmp_type();
     let _ = i.payload_slice();
     format!(
         "icmp6(s={},type={},code={},ck={},b58={},pl={}){}",
@@ -1610,7 +1620,7 @@ pub fn run(op: &str, a: &[&str]) -> Option<String> {
         _ => return None,
     };
     // every decoding door runs on two guard-page placements of the input (C01)
-    if op.starts_with("impl.dec.read_") {
+    if op.starts_with("impl.dec.read") {
         return crate::guard::both_placements(&data, |b| crate::rd::run_on(op, et, b));
     }
     crate::guard::both_placements(&data, |b| run_on(op, et, b))
